@@ -1,6 +1,6 @@
 // Independent reference for the packrat unit: a memoised exhaustive derivation finder for the context-free grammar
 // read from /repo/grammar.y at run time, the raw tree each derivation denotes, and a random sentence generator.
-// Auxiliary (witness search / bounded sanity test); it never decides anything.
+// Auxiliary (witness search, bounded sanity test, bounded stand-in for undecided runs on changed trees).
 use crate::reference::Raw;
 use std::collections::HashMap;
 
